@@ -54,6 +54,8 @@ def draw_cfg(st, prop="C03"):
         "w_plain_gen": st.choose(2, "plain_gen"),
         "w_reenter": st.choose(2, "reenter"),
         "call_budget": 60000,
+        "w_xreg": st.choose(2, "xreg"),
+        "extractable": EXTRACTABLE,
     }
     styles = [i for i in range(len(P.ACT_STYLES)) if i == 0 or st.choose(3, "style-on")]
     cfg["act_styles"] = styles
